@@ -734,7 +734,7 @@ impl Check for C19 {
         "C19"
     }
     fn rule(&self) -> String {
-        "default geometry only (4 KiB pages, default regions; the only sizes either release lets users have), both crates over one shared in-memory buffer. Even tapes: a history (tables and multimaps over u64/&str keys and &[u8]/u64 values, bulk prefix-sharing &str keys so that this version shortens routing keys, persistent savepoints, non-durable commits, compaction, renames, deletes) is written by this tree; redb 3.0.0 must open the cleanly closed file, list the same tables and persistent savepoints, read identical contents, and pass its check_integrity(); two crash images of the same history (nothing / a random half of the unsynced writes kept) must be recovered by redb 3.0.0 to one commit point of the window. Odd tapes: redb 3.0.0 writes (4 tables, bulk keys, non-durable commits, aborts, a persistent savepoint), this tree opens the file, reads identical contents and savepoints, check_integrity() == Ok(true), writes a continuation workload into every table and a new table, closes; redb 3.0.0 reads the result and passes its integrity check. Non-trivial: an image with >= 1 shortened separator in a variable-width-key table or a multimap subtree (independent decoder), or an old->new image with >= 500 entries; distinct by tape hash. Composite key/value types are excluded from the new->old generator (known finding, probed once per run).".into()
+        "default geometry only (4 KiB pages, default regions; the only sizes either release lets users have), both crates over one shared in-memory buffer. Even tapes: a history (tables and multimaps over u64/&str keys and &[u8]/u64 values, bulk prefix-sharing &str keys so that this version shortens routing keys, persistent savepoints, non-durable commits, compaction, renames, deletes) is written by this tree; redb 3.0.0 must open the cleanly closed file, list the same tables and persistent savepoints, read identical contents, and pass its check_integrity(); two crash images of the same history (nothing / a random half of the unsynced writes kept) must be recovered by redb 3.0.0 to one commit point of the window. Odd tapes: redb 3.0.0 writes (4 tables, bulk keys, non-durable commits, aborts, a persistent savepoint), this tree opens the file, reads identical contents and savepoints, check_integrity() == Ok(true), writes a continuation workload into every table and a new table, closes; redb 3.0.0 reads the result and passes its integrity check. Non-trivial: an image with >= 1 shortened separator in a variable-width-key table or a multimap subtree (independent decoder), or an old->new image with >= 500 entries; distinct by tape hash. Composite key/value types are excluded from the new->old generator (known finding, probed once per run). Enumerated on every run: a grid of 20 tables covering every non-composite built-in type as key and as value (u8..u128, i8..i128, bool, char, (), f32, f64, &str, String, &[u8]); written by this tree and read by redb 3.0.0 under the same Rust type, then a second table of that type written by redb 3.0.0 and both read by this tree.".into()
     }
     fn assumptions(&self) -> Vec<String> {
         vec!["redb 3.0.0 is the only v3-format release available offline".into(), "a panic inside redb 3.0.0 while reading a file written by this tree counts as 'cannot be read'".into()]
